@@ -368,7 +368,7 @@ func TestC15Rate(t *testing.T) {
 				r := rapid.SampledFrom([][2]string{{"1", "2s"}, {"3", "5s"}, {"20", "m"}, {"1", "1500ms"}, {"2", "3s"}}).Draw(t, "slowrate")
 				fmt.Sscan(r[0], &c.Count)
 				c.Window, c.Probes, c.Chunked, c.StopMs = r[1], 32, false, 1200
-			} else if rapid.IntRange(0, 15).Draw(t, "long-slow") == 0 {
+			} else if kit.Uniform(t, "long-slow", 16) == 13 {
 				// far below one probe per second, watched for 14.5 s: an error of less than one probe per second stays inside
 				// the start-up burst allowance for ten seconds, whatever the rate
 				r := rapid.SampledFrom([][2]string{{"1", "m"}, {"2", "m"}, {"30", "h"}, {"1", "90s"}}).Draw(t, "veryslowrate")
